@@ -63,6 +63,24 @@ pub fn eval(name: &str, cp: u32) -> Option<String> {
             None => "none".to_string(),
             Some(d) => format!("{:04X}", d),
         },
+        "hasrtl1" => b(prof_hooks::has_rtl(&ch?.to_string())),
+        "dir_a1" => {
+            // directionality rule on the two-character label "a" + c
+            use precis_core::profile::Rules;
+            let s: String = ['a', ch?].iter().collect();
+            match precis_profiles::UsernameCasePreserved::new().directionality_rule(s.as_str()) {
+                Ok(t) => if t == s { "ok".to_string() } else { "changed".to_string() },
+                Err(_) => "err".to_string(),
+            }
+        }
+        "dir_1" => {
+            use precis_core::profile::Rules;
+            let s: String = ch?.to_string();
+            match precis_profiles::UsernameCasePreserved::new().directionality_rule(s.as_str()) {
+                Ok(t) => if t == s { "ok".to_string() } else { "changed".to_string() },
+                Err(_) => "err".to_string(),
+            }
+        }
         "zs" => b(prof_hooks::is_space_separator(ch?)),
         "nonascii_zs" => b(prof_hooks::is_non_ascii_space(ch?)),
         "std_upper" => b(ch?.is_uppercase()),
